@@ -50,6 +50,7 @@ GROUPS = {
     "TlsSess": dict(imports=["TLX.PyRt", "TLX.Session"], decls=[]),
     "Reasm": dict(imports=["TLX.PyRt", "TLX.Reassembly"], decls=[]),
     "Checksum": dict(imports=["TLX.PyRt"], decls=[]),
+    "Suites": dict(imports=["TLX.PyRt", "TLX.CipherSuiteTypes"], decls=[]),
     # the frame class constructors call the two varint functions: this group rests on Varint's definitions
     "Frames": dict(imports=["TLX.PyRt", "TLX.Quic.FrameTypes", "TLX.Gen.Translated.Varint"], decls=[]),
 }
@@ -323,6 +324,41 @@ SPECS.append(dict(name="parse_frames", group="Frames", file="tlexport/quic/quic_
                   calls={"GenericFrame": dict(lean=f"construct {CLS}.GenericFrame", args=["Bytes", None], ret="FrameObj", raises=True)},
                   attr_funcs={("FrameObj", "length"): ("FrameObj.length", "Nat")}))
 
+# cipher_suite_parser.py: the two tables re-derived from the dict displays (classes named by the last identifier of the
+# expression that denotes them) and `split_cipher_suite`
+VAL = "TLX.CipherSuite.Val"
+
+
+def _val_leaf(node, plain, fname):
+    """a value of `cipher_suite_parts[part]`: `(class, int)`, a class, or an int — as the model's `Val`"""
+    if isinstance(node, ast.Tuple) and len(node.elts) == 2:
+        return f".tup {plain(node.elts[0])} {plain(node.elts[1])}"
+    if isinstance(node, ast.Constant) and isinstance(node.value, int) and not isinstance(node.value, bool):
+        return f".int {plain(node)}"
+    if isinstance(node, (ast.Name, ast.Attribute)):
+        return f".cls {plain(node)}"
+    raise Untranslatable(fname, node, "table value that is not a (class, int) tuple, a class or an int")
+
+
+def _cls(name):
+    return ("([" + ", ".join(str(ord(c)) for c in name) + "] : List Nat)", "Cls")
+
+
+SUITE_TYPES = {"Val": VAL, "Cls": "List Nat"}
+SPECS.append(dict(name="cipher_suites", group="Suites", kind="table", file="tlexport/cipher_suite_parser.py", func=None,
+                  target="cipher_suites", type="List (Bytes × List Nat)", theorem="cipher_tables_eq_model"))
+SPECS.append(dict(name="cipher_suite_parts", group="Suites", kind="table", file="tlexport/cipher_suite_parser.py", func=None,
+                  target="cipher_suite_parts", type=f"List (List Nat × List (List Nat × {VAL}))", class_names=True, leaf=_val_leaf,
+                  theorem="cipher_tables_eq_model"))
+SPECS.append(dict(name="split_cipher_suite", group="Suites", file="tlexport/cipher_suite_parser.py", func="split_cipher_suite",
+                  params=[("suite_id", "Bytes")], ret="Option (Table Str; Val)", types=SUITE_TYPES,
+                  consts={"cipher_suites": ("cipher_suites", "Table Bytes; Str"),
+                          "cipher_suite_parts": ("cipher_suite_parts", "Table Str; Table Str; Val"),
+                          "AES": _cls("AES"), "aead.AESGCM": _cls("AESGCM"), "aead.AESCCM": _cls("AESCCM"),
+                          "hashes.SHA256": _cls("SHA256"), "None": _cls("None")},
+                  locals={"cipher_suite": "Table Str; Val"},
+                  unions={"Val": [("Cls × Nat", f"{VAL}.tup {{0}}.1 {{0}}.2"), ("Cls", f"{VAL}.cls {{0}}"), ("Nat", f"{VAL}.int {{0}}")]}))
+
 # checksums.py: the bytearrays are locals the functions create (`copy.deepcopy`, `bytearray(…)`): values that are rebound;
 # what the functions read from the packet object are places (`len(packet.udp)`, `bytes(packet.udp)` are inputs)
 SPECS.append(dict(name="ones_complement_checksum", group="Checksum", file="tlexport/checksums.py", func="ones_complement_checksum",
@@ -362,7 +398,7 @@ MODULES = group_modules(GROUPS)          # all groups (`TLX.Props.Translated` im
 
 # property → the groups whose translated functions its model functions are (what the check proves besides its own modules)
 CHECK_GROUPS = {
-    "C01": ["TlsSess"],
+    "C01": ["TlsSess", "Suites"],
     "C02": ["QuicDissect", "QuicSess", "Pn", "Varint", "Frames"],
     "C03": ["TlsSess", "QuicDissect"],
     "C04": ["Demux", "QuicSess", "QuicDissect"],
@@ -371,6 +407,7 @@ CHECK_GROUPS = {
     "C10": ["Ports"],
     "C11": ["Checksum"],
     "C13": ["TlsSess"],
+    "C14": ["Suites"],
     "C16": ["Pn"],
     "C17": ["Varint", "Frames"],
     "C18": ["Demux"],
@@ -393,14 +430,27 @@ def table_term(node, spec, fname):
     """a dict / tuple / list display of spec constants and int literals as a Lean term (dict → association list in
     display order; `PyRt.tableGet` looks up the LAST entry of a key, as a dict display keeps the last value)"""
     k = ast.unparse(node)
-    if k in spec["consts"]:
+    if k in spec.get("consts", {}):
         return spec["consts"][k][0]
+    leaf = spec.get("leaf")                # how the values of a dict of mixed values are written (a union type of the spec)
+    if leaf is not None and not isinstance(node, ast.Dict) and spec.get("_in_value"):
+        return leaf(node, lambda n: table_term(n, dict(spec, leaf=None), fname), fname)
     if isinstance(node, ast.Constant) and isinstance(node.value, int) and not isinstance(node.value, bool):
         return str(node.value) if node.value >= 0 else f"({node.value})"
+    if isinstance(node, ast.Constant) and isinstance(node.value, bytes):
+        return "[" + ", ".join(str(b) for b in node.value) + "]"
+    if isinstance(node, ast.Constant) and isinstance(node.value, str):
+        return "[" + ", ".join(str(ord(c)) for c in node.value) + "]"
+    if spec.get("class_names") and (isinstance(node, (ast.Name, ast.Attribute)) or (isinstance(node, ast.Constant) and node.value is None)):
+        # a class (or None) is named by the last identifier of the expression that denotes it
+        name = "None" if isinstance(node, ast.Constant) else (node.id if isinstance(node, ast.Name) else node.attr)
+        return "[" + ", ".join(str(ord(c)) for c in name) + "]"
     if isinstance(node, (ast.Tuple, ast.List)):
         return "[" + ", ".join(table_term(e, spec, fname) for e in node.elts) + "]"
     if isinstance(node, ast.Dict) and all(key is not None for key in node.keys):
-        return "[" + ", ".join(f"({table_term(a, spec, fname)}, {table_term(b, spec, fname)})" for a, b in zip(node.keys, node.values)) + "]"
+        inner = dict(spec, _in_value=True)
+        keyspec = dict(spec, _in_value=False)
+        return "[" + ",\n  ".join(f"({table_term(a, keyspec, fname)}, {table_term(b, inner, fname)})" for a, b in zip(node.keys, node.values)) + "]"
     raise Untranslatable(fname, node, "table entry that is not a spec constant, an int literal, a tuple/list or a dict display")
 
 
